@@ -433,7 +433,7 @@ def restOK (r : IIRes) (v : Bytes) : Prop :=
   match r with
   | .found _ rest => v = rest
   | .capped rest => v = rest
-  | .eof => True
+  | .eof => v = []
 
 theorem resB_cons (b : Nat) (r : IIRes) : resB (r.cons b) = (resB r).cons b := by
   cases r <;> rfl
@@ -490,15 +490,15 @@ theorem iiLoopB_spec (ch : Chunking) : âˆ€ (fuel n prev : Nat) (s : BS), Inv s â
         cases hvs : view s with
         | nil =>
           rw [hvs] at hei
-          rw [hv1, hvs] at r2
+          rw [hv1, hvs] at r2 r3
           simp only [headRes] at r2
           cases hrb : readByte ch s1 with
           | mk s2 res =>
-            rw [hrb] at r1 r2
-            simp only [] at r2
+            rw [hrb] at r1 r2 r3
+            simp only [] at r2 r3
             subst r2
             simp [iiLoop, hcap, hei, resB, restOK]
-            exact r1
+            exact âŸ¨r1, by simpa using r3âŸ©
         | cons b t =>
           rw [hvs] at hei hf
           rw [hv1, hvs] at r2 r3
